@@ -164,6 +164,13 @@ func (s *Store) hit(site string, ctx context.Context) string {
 			s.Cancel()
 		}
 		return ""
+	case "cancel-slow":
+		// the context is cancelled while this callback is still running (a storage that is slow to notice)
+		if s.Cancel != nil {
+			s.Cancel()
+		}
+		time.Sleep(15 * time.Millisecond)
+		return ""
 	case "block":
 		if ctx != nil {
 			<-ctx.Done()
